@@ -317,7 +317,154 @@ fn run_union_drop(k: usize) -> Vec<String> {
     errs
 }
 
+/// zero-sized payload with a destructor and a counted Clone
+struct Zp;
+static ZP_DROPS: std::sync::atomic::AtomicUsize = std::sync::atomic::AtomicUsize::new(0);
+static ZP_MADE: std::sync::atomic::AtomicUsize = std::sync::atomic::AtomicUsize::new(0);
+impl Zp {
+    fn mk() -> Zp {
+        ZP_MADE.fetch_add(1, std::sync::atomic::Ordering::SeqCst);
+        Zp
+    }
+}
+impl Clone for Zp {
+    fn clone(&self) -> Zp {
+        Zp::mk()
+    }
+}
+impl Default for Zp {
+    fn default() -> Zp {
+        Zp::mk()
+    }
+}
+impl Drop for Zp {
+    fn drop(&mut self) {
+        ZP_DROPS.fetch_add(1, std::sync::atomic::Ordering::SeqCst);
+    }
+}
+impl std::fmt::Debug for Zp {
+    fn fmt(&self, f: &mut std::fmt::Formatter) -> std::fmt::Result {
+        f.write_str("Zp")
+    }
+}
+
+pub const N_ZST: usize = 16;
+fn run_zst(k: usize) -> Vec<String> {
+    use std::sync::atomic::Ordering::SeqCst;
+    use triomphe::{ArcUnion, OffsetArc};
+    use unsize::{CoerceUnsize, Coercion};
+    let names = ["new / drop", "clone / drop both", "try_unwrap (sole owner)", "try_unwrap (shared)", "UniqueArc::into_inner", "unwrap_or_clone (sole owner)",
+                 "unwrap_or_clone (shared)", "make_mut (shared)", "make_unique (shared)", "from Box", "Default", "OffsetArc round trip and clone_arc",
+                 "ArcUnion second variant, clone", "unsized to dyn Debug", "new_uninit / write / assume_init", "into_raw / from_raw, borrow_arc().clone_arc()"];
+    let tag = format!("zero-sized payload with a destructor through: {}", names[(k - 1) % names.len()]);
+    alloc::reset();
+    ev::LOG.clear();
+    ZP_DROPS.store(0, SeqCst);
+    ZP_MADE.store(0, SeqCst);
+    let mut errs = vec![];
+    alloc::track(true);
+    let r = catch_unwind(AssertUnwindSafe(|| match k {
+        1 => drop(Arc::new(Zp::mk())),
+        2 => {
+            let a = Arc::new(Zp::mk());
+            let b = a.clone();
+            drop(a);
+            drop(b);
+        }
+        3 => drop(Arc::try_unwrap(Arc::new(Zp::mk())).ok()),
+        4 => {
+            let a = Arc::new(Zp::mk());
+            let b = a.clone();
+            let r = Arc::try_unwrap(a);
+            drop(b);
+            drop(r);
+        }
+        5 => drop(UniqueArc::into_inner(UniqueArc::new(Zp::mk()))),
+        6 => drop(Arc::unwrap_or_clone(Arc::new(Zp::mk()))),
+        7 => {
+            let a = Arc::new(Zp::mk());
+            let b = a.clone();
+            let v = Arc::unwrap_or_clone(a);
+            drop(b);
+            drop(v);
+        }
+        8 => {
+            let mut a = Arc::new(Zp::mk());
+            let b = a.clone();
+            let _ = Arc::make_mut(&mut a);
+            drop(b);
+            drop(a);
+        }
+        9 => {
+            let mut a = Arc::new(Zp::mk());
+            let b = a.clone();
+            let _ = Arc::make_unique(&mut a);
+            drop(a);
+            drop(b);
+        }
+        10 => drop(Arc::<Zp>::from(Box::new(Zp::mk()))),
+        11 => drop(Arc::<Zp>::default()),
+        12 => {
+            let o = Arc::into_raw_offset(Arc::new(Zp::mk()));
+            let a = o.clone_arc();
+            let o2 = o.clone();
+            drop(Arc::from_raw_offset(o));
+            drop(a);
+            drop(o2);
+        }
+        13 => {
+            let u: ArcUnion<u64, Zp> = ArcUnion::from_second(Arc::new(Zp::mk()));
+            let v = u.clone();
+            drop(u);
+            drop(v);
+        }
+        14 => {
+            let d: Arc<dyn std::fmt::Debug> = Arc::new(Zp::mk()).unsize(Coercion!(to dyn std::fmt::Debug));
+            let e = d.clone();
+            drop(d);
+            drop(e);
+        }
+        15 => {
+            let mut u = UniqueArc::<Zp>::new_uninit();
+            u.write(Zp::mk());
+            drop(unsafe { UniqueArc::assume_init(u) }.shareable())
+        }
+        _ => {
+            let a = Arc::new(Zp::mk());
+            let c = a.borrow_arc().clone_arc();
+            let p = Arc::into_raw(a);
+            drop(unsafe { Arc::from_raw(p) });
+            drop(c);
+        }
+    }));
+    alloc::track(false);
+    if r.is_err() {
+        errs.push(format!("[panicked] {}: the path panicked", tag));
+    }
+    let (made, drops) = (ZP_MADE.load(SeqCst), ZP_DROPS.load(SeqCst));
+    if made != drops {
+        errs.push(format!("[drops] {}: {} value(s) were created (the original and each clone), {} destructor run(s) happened", tag, made, drops));
+    }
+    for e in ev::drain() {
+        if let Ev::Dealloc { status, size, align, rsize, ralign, .. } = e {
+            if status != 0 {
+                errs.push(format!("[layout] {}: block requested as (size {}, align {}) released as (size {}, align {}), status {}", tag, rsize, ralign, size, align, status));
+            }
+        }
+    }
+    for rec in alloc::table() {
+        if rec.live || rec.frees != 1 {
+            errs.push(format!("[leak] {}: a block of {} bytes was released {} time(s)", tag, rec.size, rec.frees));
+        }
+    }
+    alloc::reset();
+    errs
+}
+
 pub fn run_case(c: &Value, variant: usize) -> Vec<String> {
+    if c["ctor"].as_str() == Some("zst") {
+        return run_zst(c["k"].as_u64().unwrap_or(1) as usize);
+    }
     if c["ctor"].as_str() == Some("observe") {
         return run_observer(c["k"].as_u64().unwrap_or(1) as usize);
     }
